@@ -23,7 +23,7 @@ ASSUMPTIONS = [
 ]
 REQUIRED = ['stop_in_started', 'stop_mid_chain', 'stop_in_generator_step', 'stop_via_systemexit', 'stop_via_keyboardinterrupt',
             'stop_from_second_thread', 'exit_code_given', 'events_fired_after_stop', 'stopped_handler_fires', 'queued_before_run',
-            'second_cycle', 'stop_when_not_running', 'stop_of_registered_child_while_root_runs']
+            'second_cycle', 'stop_when_not_running', 'stop_of_registered_child_while_root_runs', 'systemexit_while_not_running']
 REQUIRED_OBLIGATIONS = ['STARTED_ONCE', 'STOPPED_ONCE', 'DRAINED', 'EXIT_CODE', 'RUN_ENDS', 'STOP_NOT_RUNNING_NOOP']
 WORKER_TIMEOUT = {'quick': 300, 'thorough': 1500}
 ENGINE = 'stepping-driver'
@@ -119,6 +119,18 @@ def run_case(case):
                 stopped_done.set()
             th = threading.Thread(target=stopper, daemon=True)
             th.start()
+        if cycle.get('pre_sysexit') is not None:
+            # a handler raises SystemExit(code) while the manager is NOT running (driven by flush()): stopping is a no-op then, and
+            # the code must not surface at the caller of a later run()
+            marks.add('systemexit_while_not_running')
+            try:
+                w.fire({'name': 'presys'})
+                while len(w.app):
+                    w.app.flush()
+            except BaseException as e:  # noqa: BLE001
+                problems.append(('STOP_NOT_RUNNING_NOOP', {'cycle': cyc, 'when': 'SystemExit(%r) raised by a handler during a manual flush()' % (cycle['pre_sysexit'],),
+                                                           'flush_raised': repr(e)}))
+                break
         start = len(w.log)
         w.L('RUN')
         raised = None
@@ -258,6 +270,9 @@ def corpus():
         cs.append({'name': 'childstop-%r-before-stop' % (code,), 'handlers': chain(1, ['stopmgr', None], 2, childstop=[(0, code)]), 'cycles': [{'pre_fires': [E('x')]}, {}]})
         cs.append({'name': 'childstop-%r-in-started-and-gen' % (code,), 'handlers': chain(1, ['stopmgr', 3], 1, gen_stop=True, childstop=[(-1, code), (1, code)]), 'cycles': [{}, {}]})
         cs.append({'name': 'childstop-%r-after-stop' % (code,), 'handlers': chain(1, ['stopmgr', None], 0, childstop=[(2, code)]), 'cycles': [{}]})
+    for code in (5, 'early'):
+        cs.append({'name': 'sysexit-while-not-running-%r' % (code,), 'handlers': chain(1, ['stopmgr', None], 1) + [HD(90, 'presys', [['fire', E('x')], ['sysexit', code]])],
+                   'cycles': [{'pre_sysexit': code}, {}, {'pre_sysexit': code, 'pre_fires': [E('x')]}]})
     cs.append({'name': 'kbint', 'handlers': chain(1, ['kbint'], 2), 'cycles': [{}, {}, {}]})
     cs.append({'name': 'kbint-gen', 'handlers': chain(1, ['kbint'], 0, gen_stop=True), 'cycles': [{}, {}]})
     cs.append({'name': 'thread', 'handlers': chain(1, ['fire', E('release_stopper')], 1), 'cycles': [{'thread_stop': True}, {'thread_stop': True, 'pre_fires': [E('x')]}]})
@@ -292,6 +307,12 @@ def gen_case(rng):
         if kind == 'thread':
             c['thread_stop'] = True
         cycles.append(c)
+    if rng.random() < 0.2:
+        pcode = rng.choice([0, 5, 'early'])
+        hs.append(HD(90, 'presys', [['fire', E('x')]] * rng.randint(0, 1) + [['sysexit', pcode]]))
+        for c in cycles:
+            if rng.random() < 0.6:
+                c['pre_sysexit'] = pcode
     return {'handlers': hs, 'cycles': cycles, 'kind': kind, 'code': code}
 
 
